@@ -8,6 +8,8 @@ import GfsSpec.Grammar
 import GfsSpec.WF
 import GfsProofs.ParseSyn
 import GfsProofs.ParseSem
+import GfsGen.Facts
+import GfsModel.ExpectedSrc
 
 namespace Gfs.Props.C01
 open Gfs Gfs.Spec Gfs.Proofs
@@ -64,5 +66,10 @@ theorem C01_len (cs : List Comp) (txt : Bytes) (hne : cs ≠ [])
   rw [blocks_len fs.blocks hwf, ← hfr]
   show _ = ((Blocks.iter fs.blocks).length : Int)
   rw [blocks_iter fs.blocks hwf]
+
+/-- the declarations of /repo this property's model and specification were written from are,
+    on this run, the ones the model was last aligned with (digest of their comment- and
+    layout-insensitive fingerprints, re-extracted by tools/gofacts) -/
+theorem C01_source : Gfs.Gen.sourceDigestC01 = Gfs.expectedSourceDigestC01 := by decide
 
 end Gfs.Props.C01
